@@ -145,3 +145,9 @@ class MethodCallerV(Value):
 class SpecFn(Value):
     def __init__(self, name):
         self.name = name
+
+
+class StaticDictV(Value):
+    """a dispatch table with constant keys evaluated from the source (class body / __init__)"""
+    def __init__(self, items):
+        self.items = dict(items)     # python constant -> Value
